@@ -55,12 +55,21 @@ def macroVerb (ws : List String) : Option String :=
   match ws with
   | ["mres", _, idx, ns, sep, isSub, name, aliases, unsub, unsubAliases] =>
     some (mresVerb idx ns sep isSub name aliases unsub unsubAliases)
-  | "mcall" :: _ :: kind :: desc :: args =>
+  | "mcall" :: key :: kind :: desc :: args =>
     some (match parseDesc kind desc, args.mapM unOptHex with
       | some d, some as =>
         let p := clientEncode d as
         (match serverDecode d p with
          | some got =>
+           if key == "fail_with" then
+             -- the method answers with the error object (code, message, data) built from its arguments
+             (match got with
+              | [some c, some m, dat] =>
+                (match decodeString m with
+                 | some ms => s!"p={optHex p} r={argsRepr got} ret=CALL:{String.ofList (c.map Char.ofNat)}:{hexText ms}:{optHex dat}"
+                 | none => s!"p={optHex p} r={argsRepr got} ret=ERR")
+              | _ => s!"p={optHex p} r={argsRepr got} ret=ERR")
+           else
            let ret := 91 :: joinElems (got.map argText) ++ [93]
            s!"p={optHex p} r={argsRepr got} ret={hexText ret}"
          | none => s!"p={optHex p} r=E ret=ERR")
